@@ -1024,6 +1024,10 @@ func (a *fnA) loopBounded(lp *loopInfo) (bool, string) {
 					return true, fmt.Sprintf("%s strictly increases on every back edge and %s <= len(%s) is a loop invariant: at most len+1 iterations", a.describe(phi), a.describe(phi), a.describe(s))
 				}
 			}
+			// (a'') exit test against a loop-invariant bound that is itself proved <= len(S), starting from >= 0
+			if t, ok := a.exitBoundByInput(lp, phi, slices); ok {
+				return true, fmt.Sprintf("%s strictly increases from a non-negative start and the loop exits when it reaches %s, which is proved <= the input length", a.describe(phi), t)
+			}
 			// (c) exit test against a bound that is not input-controlled
 			if t, ok := a.exitBound(lp, phi); ok {
 				return true, fmt.Sprintf("%s strictly increases and the loop exits when it reaches %s, which is not derived from the input bytes", a.describe(phi), t)
@@ -1049,6 +1053,89 @@ func (a *fnA) loopBounded(lp *loopInfo) (bool, string) {
 		}
 	}
 	return false, "no loop variable is proved to make progress bounded by the input length: a short input may drive this loop for up to 2^63 iterations (or forever)"
+}
+
+// exitBoundByInput: the loop is left when phi reaches T, where T is defined
+// outside the loop and proved <= len(S) for an input slice S, and phi starts >= 0.
+func (a *fnA) exitBoundByInput(lp *loopInfo, phi *ssa.Phi, slices []ssa.Value) (string, bool) {
+	h := lp.header
+	large, ok := a.exitOperand(lp, phi, true)
+	if !ok {
+		return "", false
+	}
+	// T must be loop-invariant: every term of its linear form is defined outside the loop
+	for t := range a.lin(large).C {
+		if v := a.terms[t].v; v != nil {
+			if in, isInstr := v.(ssa.Instruction); isInstr && lp.body[in.Block()] {
+				return "", false
+			}
+		}
+	}
+	bounded := false
+	for _, s := range slices {
+		q, ok := leq(a.lin(large), a.lenOf(s))
+		if a.prove(h, nil, q, ok) {
+			bounded = true
+		}
+	}
+	if !bounded {
+		return "", false
+	}
+	for pi, pred := range h.Preds {
+		if lp.body[pred] {
+			continue
+		}
+		q, ok := geq(a.lin(phi.Edges[pi]), linConst(0))
+		if !a.prove(pred, a.edgeExtra(pred, h), q, ok) {
+			return "", false
+		}
+	}
+	return a.describe(large), true
+}
+
+// exitOperand finds the stay-in-loop test phi(+k) < T and returns T.
+func (a *fnA) exitOperand(lp *loopInfo, phi *ssa.Phi, allowTainted bool) (ssa.Value, bool) {
+	pid := a.valTerm(phi)
+	for bb := range lp.body {
+		iff, ok := bb.Instrs[len(bb.Instrs)-1].(*ssa.If)
+		if !ok {
+			continue
+		}
+		exitIdx := -1
+		for i, s := range bb.Succs {
+			if !lp.body[s] {
+				exitIdx = i
+			}
+		}
+		if exitIdx != 1 {
+			continue
+		}
+		cmp, ok := iff.Cond.(*ssa.BinOp)
+		if !ok {
+			continue
+		}
+		var small, large ssa.Value
+		switch cmp.Op {
+		case token.LSS, token.LEQ:
+			small, large = cmp.X, cmp.Y
+		case token.GTR, token.GEQ:
+			small, large = cmp.Y, cmp.X
+		default:
+			continue
+		}
+		ls := a.lin(small)
+		if ls.C[pid] != 1 || len(ls.C) != 1 {
+			continue
+		}
+		if !allowTainted && a.taint[large] {
+			continue
+		}
+		if _, mentions := a.lin(large).C[pid]; mentions {
+			continue
+		}
+		return large, true
+	}
+	return nil, false
 }
 
 // exitBound: the loop is left when phi (+const) reaches T, T untainted.
